@@ -113,8 +113,9 @@ def _task(t):
     t0 = time.time()
     try:
         if kind == 'fn':
-            _, mod, fn, cfgs, c_file = t
-            out = U.run_functions('SELF', mod, [fn], configs=cfgs, c_file=c_file, replay=c_file is not None)
+            _, mod, fn, cfgs, c_file = t[:5]
+            shard = t[5] if len(t) > 5 else None
+            out = U.run_functions('SELF', mod, [fn], configs=cfgs, c_file=c_file, replay=c_file is not None, shard=shard)
         else:
             _, which, chunk, sdir = t
             from . import scan
@@ -136,6 +137,9 @@ def run_pool(tasks, jobs):
     with ctx.Pool(min(jobs, len(tasks)), maxtasksperchild=1) as pool:
         for r in pool.imap_unordered(_task, tasks):
             outs.append(r)
+            if os.environ.get('VERIF_CVC_PROGRESS'):
+                t = r['task']
+                print('    [done %.0fs] %s' % (r['seconds'], ' '.join(str(x) for x in t[1:4])[:110]), flush=True)
     return outs
 
 
@@ -148,15 +152,17 @@ def have(mod):
 
 
 # ------------------------------------------------------------------------------------------------ (i) baseline
-def baseline(jobs, only):
+def baseline(jobs, only, quick_only=False):
     tasks = []
     for mod in MODULES:
         if not have(mod):
             continue
-        for fn, cfgs, w in U.plan(mod):
+        for fn, cfgs, shard, w, tiers in U.plan(mod):
             if only and not any(o in fn or o in mod for o in only):
                 continue
-            tasks.append((w, ('fn', mod, fn, cfgs, None)))
+            if quick_only and 'quick' not in tiers:
+                continue
+            tasks.append((w, ('fn', mod, fn, tuple(cfgs) if cfgs else None, None, shard)))
     if not only or any('scan' in o for o in only):
         for which in ('static_const', 'alloc_checked', 'const_index'):
             for i in range(8):
@@ -180,7 +186,7 @@ def baseline(jobs, only):
                 p['dis'] += 1
             else:
                 bad.append(r)
-    print('=== (i) unchanged sources: %s' % src_dir())
+    print('=== (i) unchanged sources: %s (%s)' % (src_dir(), 'quick tier: representative configurations' if quick_only else 'all configurations'))
     print('%-44s %11s %10s %10s %9s' % ('function / scan', 'obligations', 'discharged', 'instances', 'cpu s'))
     for k in sorted(per):
         p = per[k]
@@ -332,13 +338,14 @@ def main(argv=None):
     ap.add_argument('--only', action='append')
     ap.add_argument('--jobs', type=int, default=int(os.environ.get('VERIF_JOBS', '16')))
     ap.add_argument('--skip-base', action='store_true')
+    ap.add_argument('--quick', action='store_true', help='baseline: only the quick-tier units (representative configurations)')
     ap.add_argument('--skip-mutants', action='store_true')
     ap.add_argument('--skip-benign', action='store_true')
     a = ap.parse_args(argv)
     t0 = time.time()
     ok = True
     if not a.skip_base:
-        ok = baseline(a.jobs, a.only) and ok
+        ok = baseline(a.jobs, a.only, a.quick) and ok
     tmp = tempfile.mkdtemp(prefix='cvc_selftest_')
     try:
         if not a.skip_mutants:
